@@ -265,7 +265,7 @@ func lastLines(s string, n int) string {
 func TestC20(t *testing.T) {
 	defer isoPool.Close()
 	core.Run(t, "C20",
-		"full-grammar generated programs (every statement and expression kind; custom delimiters in 1/5) parsed by the engine and walked in an isolated worker; non-trivial = contains >=1 of include/try/catch/return/_ slot/open slice/two-value let/block/yield content/unary minus; distinct by case hash; programs the parser rejects are discarded and counted",
+		"full-grammar generated programs (every statement and expression kind; custom delimiters in 1/5; one or two tokens dropped from the source in 1/4) parsed by the engine and walked in an isolated worker; non-trivial = contains >=1 of include/try/catch/return/_ slot/open slice/two-value let/block/yield content/unary minus; distinct by case hash; programs the parser rejects are discarded and counted",
 		genC20, judgeC20)
 }
 
